@@ -2,7 +2,7 @@
 Also hosts the shared context enumeration used by C04."""
 from ..callgraph import explore, storage_effects, message_effects, call_sites, written_value_in, site_guarded
 from ..ir import strip_generics
-from ..expr import mk_phi, show, find, E, simplify, arith_args
+from ..expr import subst, mk_phi, show, find, E, simplify, arith_args
 from .common import entry, variant_env, stored, where, arm_handler
 from .hub_common import (receive_handlers, subtree, Roles, resync_fns, recompute_fns, HUBCFG, PARAMS, STATE, BATCH, TOKENS)
 from .msgs import wasm_execute
@@ -145,11 +145,21 @@ def run(prog, world, sem, rep):
         # structural discovery: methods of State that assign a rate field through &mut self
         cands = [b for b in prog.fn_bodies(crate="basset") if b.kind == "method" and (b.impl_self or "").endswith("hub::State")]
         mb = None
+        setters = []
         for b in cands:
             out = world.ident(world.out_expr(b, 0))
             rv = world.ident(sem.field_of(out, RATE[tk]))
             lab = sem.label(rv)
             if not (lab is not None and lab[0] == "param" and lab[4] == (RATE[tk],)):
+                setters.append((b, rv))
+        # a method that changes the rate only by calling another setter (`apply_bond` -> `update_X_exchange_rate`) is a wrapper: the
+        # formula lives in the innermost one
+        spaths = {b.path for b, _ in setters}
+        for b, rv in setters:
+            from ..ir import strip_generics
+            callees = {strip_generics(x) for blk in b.calls() for x in (blk.term.callee.dpath, blk.term.callee.path) if x}
+            callees |= {prog.alias.get(c, c) for c in callees}
+            if not (callees & (spaths - {b.path})):
                 mb = (b, rv)
         if mb is None:
             rep.ob("C03.a", "%s rate update method" % tk, False, "anchor-lost: no State method assigns %s" % RATE[tk])
